@@ -228,3 +228,146 @@ fn c21_two_event_loops() {
     let r2 = p2.registry().verif_lookup(fd);
     kani::assert(r2.is_some(), "a wait made through event loop 2 is registered with event loop 2's OS poller");
 }
+
+// ------------------------------------------------------------------------------------------ C21, inductive step
+// One interest operation from an ARBITRARY valid state (DESIGN 2.6-1): histories of any length over 2 descriptors.
+// State per descriptor: read interest outstanding or not, write interest outstanding or not; for an outstanding
+// interest the waiting token's record may be present or already consumed by `select` (an event was delivered - the
+// interest itself stays registered, mio registrations persist). INV: the OS interest list of the poller holds the
+// descriptor iff an interest is outstanding, with exactly those interests; a token record exists only for an
+// outstanding interest. Every such state is reachable (wait read / wait write / deliver an event), so a counterexample
+// is a real history.
+#[derive(Copy, Clone)]
+struct FdState {
+    r: bool,
+    w: bool,
+    rt: bool, // READABLE_TOKEN_RECORDS entry present
+    wt: bool,
+    tok_r: u64,
+    tok_w: u64,
+    tok_os: u64,
+}
+
+fn any_fd_state() -> FdState {
+    let s = FdState { r: kani::any(), w: kani::any(), rt: kani::any(), wt: kani::any(), tok_r: kani::any(), tok_w: kani::any(), tok_os: kani::any() };
+    kani::assume(!s.rt || s.r);
+    kani::assume(!s.wt || s.w);
+    s
+}
+
+fn install(p: &Poller, i: usize, s: &FdState) {
+    let fd = FDS[i];
+    if s.r {
+        _ = READABLE_RECORDS.insert(fd);
+        if s.rt {
+            _ = READABLE_TOKEN_RECORDS.insert(fd, s.tok_r);
+        }
+    }
+    if s.w {
+        _ = WRITABLE_RECORDS.insert(fd);
+        if s.wt {
+            _ = WRITABLE_TOKEN_RECORDS.insert(fd, s.tok_w);
+        }
+    }
+    if s.r || s.w {
+        let bits = if s.r && s.w { MioInterest::READABLE.add(MioInterest::WRITABLE) } else if s.r { MioInterest::READABLE } else { MioInterest::WRITABLE };
+        let ok = p.do_register(fd, s.tok_os, bits).is_ok();
+        kani::assert(ok, "harness: installing the pre-state registration succeeds");
+    }
+}
+
+fn inv(p: &Poller, g: &[Ghost; NFD]) {
+    check_os(p, g);
+    let mut i = 0;
+    while i < NFD {
+        let fd = FDS[i];
+        kani::assert(READABLE_RECORDS.contains(&fd) == g[i].r, "the read-interest record equals the outstanding read interest");
+        kani::assert(WRITABLE_RECORDS.contains(&fd) == g[i].w, "the write-interest record equals the outstanding write interest");
+        kani::assert(!READABLE_TOKEN_RECORDS.contains_key(&fd) || g[i].r, "a waiting-token record exists only for an outstanding read interest");
+        kani::assert(!WRITABLE_TOKEN_RECORDS.contains_key(&fd) || g[i].w, "a waiting-token record exists only for an outstanding write interest");
+        i += 1;
+    }
+}
+
+// the poller the stubbed EventLoops::del_event talks to (close hook harness)
+static mut STEP_POLLER: *const Poller = std::ptr::without_provenance(0x2c1);
+static mut KCLOSE_RESULT: c_int = 0x2c2;
+fn s_del_event(fd: c_int) -> std::io::Result<()> {
+    unsafe { (*STEP_POLLER).del_event(fd) }
+}
+extern "C" fn k_close(fd: c_int) -> c_int {
+    unsafe {
+        if KCLOSE_RESULT == 0 {
+            // the kernel drops a closed descriptor from every interest list by itself
+            (*STEP_POLLER).registry().verif_kernel_close(fd);
+            0
+        } else {
+            crate::syscall::set_errno(libc::EBADF);
+            -1
+        }
+    }
+}
+
+/// kinds 0..=5 as in `op`; 6: the hooked close (syscall::close -> NioCloseSyscall -> raw close) on a live descriptor;
+/// 7: a readiness event for the descriptor is delivered through `select`.
+fn step(kind: u8) {
+    reset_records();
+    let p = Poller::new().unwrap();
+    let s0 = any_fd_state();
+    let s1 = any_fd_state();
+    install(&p, 0, &s0);
+    install(&p, 1, &s1);
+    let mut g = [Ghost { r: s0.r, w: s0.w }, Ghost { r: s1.r, w: s1.w }];
+    let i: usize = kani::any();
+    kani::assume(i < NFD);
+    let token: u64 = kani::any();
+    match kind {
+        6 => {
+            unsafe {
+                STEP_POLLER = &raw const p;
+                KCLOSE_RESULT = 0;
+            }
+            let f: extern "C" fn(c_int) -> c_int = k_close;
+            let r = crate::syscall::close(Some(&f), FDS[i]);
+            kani::assert(r == 0, "close returns the kernel's result");
+            g[i] = Ghost { r: false, w: false };
+        }
+        7 => {
+            let bits: u8 = kani::any();
+            kani::assume(bits >= 1 && bits <= 3);
+            p.registry().verif_set_ready(FDS[i], bits);
+            let (_ev, n) = collect(&p);
+            kani::assert(n <= 1, "at most one event for one ready descriptor");
+            // delivering an event consumes waiting tokens, never an interest
+        }
+        _ => op(&p, &mut g, kind, i, token),
+    }
+    inv(&p, &g);
+    kani::cover!(i == 0 && s0.r && s0.w, "the operation hits a descriptor with both interests outstanding");
+    kani::cover!(i == 0 && s0.r && !s0.rt, "the operation hits a descriptor whose read event was already delivered");
+    kani::cover!(i == 0 && !s0.r && !s0.w, "the operation hits a descriptor without interest");
+}
+
+macro_rules! c21_step {
+    ($name:ident, $kind:expr) => {
+        #[kani::proof]
+        #[kani::unwind(6)]
+        fn $name() {
+            step($kind);
+        }
+    };
+}
+c21_step!(c21_step_wait_read, 0);
+c21_step!(c21_step_wait_write, 1);
+c21_step!(c21_step_del_both, 2);
+c21_step!(c21_step_del_read, 3);
+c21_step!(c21_step_del_write, 4);
+c21_step!(c21_step_close_and_reuse, 5);
+c21_step!(c21_step_event_delivered, 7);
+
+#[kani::proof]
+#[kani::unwind(6)]
+#[kani::stub(crate::net::EventLoops::del_event, s_del_event)]
+fn c21_step_hooked_close() {
+    step(6);
+}
